@@ -258,6 +258,25 @@ def run_cfg(chk, facts, cfg):
                 rc.region('Ok', paths, dom, e_ok, select=lambda p: stub_of(p) is not None and stub_of(p)[3][2] == 0, extra_literal=order_literal)
                 rc.region('Err', paths, dom, lambda p, r: req(p) or (None if (p.is_ret() and p.ret == err(IERR)) else 'error of the wrapped state not propagated unchanged'),
                           select=lambda p: stub_of(p) is not None and stub_of(p)[3][2] == 1)
+                if tname == 'Harmonic':
+                    # outside the proviso: when the reciprocal-space bound that is inverted is not strictly positive, its
+                    # reciprocal does not bound the harmonic mean - no interval may be returned (C10: the interval would
+                    # not contain the estimate; C11: it can be inverted)
+                    used_lo = kind in ('two', 'lower')      # the requested upper bound is 1 / (inner lower bound)
+                    rng2 = {'L': (Fraction(0), Fraction(1), True, True)}
+                    if used_lo:
+                        rng2['ilo'] = (None, Fraction(0), True, False)
+                        rng2['w'] = (Fraction(0), None, False, True)
+                    else:
+                        rng2['ilo'] = (None, Fraction(0), True, False)
+                        rng2['w'] = (Fraction(0), Fraction(0), False, False)
+                    def e_out(p, r):
+                        if p.is_ret() and unwrap_ok(p.ret) is not None:
+                            return 'returns %s although the reciprocal-space bound it inverts is not positive' % T.show(unwrap_ok(p.ret))[:90]
+                        return None
+                    rc2 = RegionCheck(chk, facts, key + ':outside-proviso', where, '%s(%s) returns no interval when the reciprocal-space bound it would invert is not positive' % (clabel, kname))
+                    rc2.region('bound <= 0', paths, Domain(nf, rng2), e_out, select=lambda p: stub_of(p) is not None and stub_of(p)[3][2] == 0)
+                    rc2.done(sample={'fn': clabel, 'kind': kname})
                 rc.done(sample={'fn': clabel, 'kind': kname})
                 if 'Ops' not in clabel:
                     cnt['kinds'] += 1
